@@ -404,6 +404,19 @@ def run(ctx):
                     p = C.rand_params(r, kind, cfg, rich=bool(rep & 1) or ctx.quick)
                     k_pdu(ctx, kind, cfg, p, sc, ctx.seed * 1_000_003 + i)
     ctx.exhaustive.append(f"8 PDU kinds x CRC off/on x {len(SUFFIX_CLASSES)} suffix classes")
+    # PDUs whose CRC trailer is exactly 0x0000 / 0xFFFF (a trailer that is "falsy", or looks like padding, must still be a trailer)
+    for kind in C.KINDS8:
+        for target in (0x0000, 0xFFFF):
+            for rep in range(2 if ctx.quick else 12):
+                i += 1
+                if not ctx.mine(i):
+                    continue
+                cfg = C.rand_cfg(r, segctrl=(kind == "file_data"), crc=1, seqw=r.choice((2, 4, 8)))
+                got = C.craft_crc_boundary(kind, cfg, C.rand_params(r, kind, cfg, rich=False), "whole", target)
+                if got is None:
+                    continue
+                ctx.table("crafted_crc_trailer", f"{kind}/{target:04x}")
+                k_pdu(ctx, kind, got[0], got[1], r.choice(SUFFIX_CLASSES), ctx.seed * 1_000_003 + i)
     for j in range(ctx.n(600, 40_000)):
         k_pdu_stream(ctx, ctx.seed * 1_000_003 + ctx.shard[0] * 100_003 + j)
 
